@@ -23,7 +23,10 @@ META = {
                   'real code on all generated pairs), fmt/strconv facts supplied by the probe from the real runtime (%v of floats injective '
                   'except NaN: checked on every float that occurs; ParseInt/ParseFloat results), reflect.DeepEqual modelled on trees with '
                   'identity labels and canonical maps. Outside the statement (agreement with the model only): cross-typed patterns, NaN, '
-                  '+0 vs -0. Not modelled: variadic mode (C04/F6), cyclic values, the unsafe cast of value.go:56.',
+                  '+0 vs -0. Not modelled: variadic mode (C04/F6), cyclic values, the unsafe cast of value.go:56. '
+                  'Excluded case (known finding C18-closure-code-identity, counter-example theorem in Findings/C18Closure.lean): two closures of one '
+                  'function literal with different captured state compare equal; equals_spec_partial carries it as a decidable hypothesis, the '
+                  'full statement is kept as C18.EqualsSpecFull. The model transcribes the code with fixes F10 and F18A applied.',
 }
 
 # ------------------------------------------------------------------------------------------------ the type zoo (mirrors the probe)
